@@ -631,6 +631,17 @@ func (bh *blipHandler) sendBatchOfChanges(sender *blip.Sender, changeArray [][]a
 				base.VerifEmit(verifObj(bh.BlipSyncContext), "Offered", "coll", verifCollIdx(bh.collectionIdx), "batch", verifBatchID(changeArray), "seqs", verifChangeSeqs(changeArray))
 			}
 		}
+		// ISGR push: register every sequence of this batch with the checkpointer now - in feed order, from the one goroutine
+		// that lists the changes, before the peer can answer. The safe checkpoint sequence can then never pass a change that
+		// has been offered but not yet acknowledged, whatever the order in which the batches' responses are handled.
+		if pushCollectionCtx, ctxErr := bh.collections.get(bh.collectionIdx); ctxErr == nil && pushCollectionCtx.sgr2PushAddExpectedSeqsCallback != nil {
+			offeredSeqs := make([]SequenceID, 0, len(changeArray))
+			for _, change := range changeArray {
+				offeredSeqs = append(offeredSeqs, change[0].(SequenceID))
+			}
+			pushCollectionCtx.sgr2PushAddExpectedSeqsCallback(offeredSeqs...)
+		}
+
 		sendTime := time.Now()
 		if !bh.sendBLIPMessage(sender, outrq) {
 			return ErrClosedBLIPSender
